@@ -41,7 +41,8 @@ TCtl == l <= Len(Rec) /\ Ctl /\ R.e # "reset" /\ l' = l + 1 /\ UNCHANGED vars
 TCallSend == IsEvent("call_send") /\ ~Ctl /\ nextVal = R.v /\ Step(R.t) /\ NewTop(R.t).val = R.v
              /\ Top(R.t).val = 0
 
-TLoad == /\ IsEvent("op") /\ ~Ctl /\ R.k = "load" /\ R.o = OrdLoad
+TLoad == /\ IsEvent("op") /\ ~Ctl /\ R.k = "load"
+         /\ R.o = (IF Top(R.t).pc \in {"s_ld", "r_ld"} THEN OrdDeqLoad ELSE OrdEnqLoad)
          /\ Top(R.t).pc \in {"s_ld", "s_ld2", "r_ld", "r_ld2"} /\ Top(R.t).val + 1 > 0
          /\ (Top(R.t).pc = "s_ld" => Top(R.t).val # 0)
          /\ (Top(R.t).pc \in {"s_ld", "r_ld2"}) = (R.l = "empty")
